@@ -75,7 +75,12 @@ def make_data(case):
 
 
 def knot_kwargs(spec):
-    return {spec[0]: spec[1]}
+    """[name, value] or [name, value, {extra constructor keywords}]; list values become fresh float arrays (bkpt, placed)."""
+    v = spec[1]
+    kw = {spec[0]: np.array(v, dtype=np.float64) if isinstance(v, (list, tuple)) else v}
+    if len(spec) > 2:
+        kw.update(spec[2])
+    return kw
 
 
 def call_iterfit(case, perm=None):
@@ -382,6 +387,9 @@ def check_weights(case):
 KNOTS7 = [['nbkpts', 2], ['nbkpts', 3], ['bkspace', 2.5]]
 KNOTS12 = [['nbkpts', 2], ['nbkpts', 3], ['bkspace', 4.0], ['nbkpts', 8]]    # nbkpts=8: intervals holding exactly one point
 KNOTSTIE = [['nbkpts', 2], ['nbkpts', 3]]
+# every breakpoint option iterfit forwards to the constructor appears in the permutation layer (12-point sets)
+KNOTS_ORDER12 = [['nbkpts', 2], ['nbkpts', 4], ['bkspace', 3.0], ['everyn', 2], ['everyn', 3], ['everyn', 5],
+                 ['placed', [2.0, 5.5, 9.0]], ['bkpt', [0.0, 3.5, 7.0, 11.25]], ['nbkpts', 3, {'bkspread': 0.5}]]
 KNOTSGAP = [['bkspace', 3.0], ['bkspace', 2.4], ['nbkpts', 10]]
 MAGS = (6.0, -6.0, 50.0, -50.0)
 
@@ -402,7 +410,7 @@ def zero_menu(n, T):
         return [[]] + [[p] for p in range(n)] + [[p, q] for p, q in itertools.combinations(range(n), 2)]
     if T:
         return [[]] + [[p] for p in range(n)] + [[p, p + 1] for p in range(n - 1)] + [[0, n - 1]]
-    return [[]] + [[p] for p in (0, 3, n // 2 + 1, n - 1)] + [[0, n - 1], [4, 5]]
+    return [[]] + [[p] for p in (0, n // 2 + 1)] + [[0, n - 1], [4, 5]]
 
 
 def order_configs(T):
@@ -416,6 +424,9 @@ def order_configs(T):
         c.append({'n': 7, 'k': k, 'knots': kn, 'zero': [0, 6], 'out': [[3, -12.0]], 'ivpat': 0, 'upper': 5, 'lower': 5, 'maxiter': 2})
         if k == 2:
             c.append({'n': 7, 'k': 2, 'knots': ['nbkpts', 5], 'zero': [], 'out': [[1, 12.0]], 'ivpat': 0, 'upper': 3, 'lower': 5, 'maxiter': 10})
+            c.append({'n': 7, 'k': 2, 'knots': ['everyn', 2], 'zero': [3], 'out': [[1, 12.0]], 'ivpat': 0, 'upper': 3, 'lower': 5, 'maxiter': 10})
+        if k == 3:
+            c.append({'n': 7, 'k': 3, 'knots': ['everyn', 3], 'zero': [0], 'out': [[4, -12.0]], 'ivpat': 1, 'upper': 5, 'lower': 5, 'maxiter': 2})
         if T:
             c.append({'n': 7, 'k': k, 'knots': kn, 'zero': [0], 'out': [[2, -20.0], [5, 6.0]], 'ivpat': 0, 'upper': 5, 'lower': 5, 'maxiter': 1})
             c.append({'n': 7, 'k': k, 'knots': kn, 'zero': [], 'out': [[2, -20.0], [5, 6.0]], 'ivpat': 0, 'upper': 5, 'lower': 5, 'maxiter': 10})
@@ -443,13 +454,19 @@ def tasks(tier):
         for first in range(7):
             t.append({'part': 'O', 'cfg': cfg, 'first': first})
     for k in (2, 3, 4):
-        for kn in ([['nbkpts', 2], ['nbkpts', 4], ['bkspace', 3.0]]):
+        for kn in KNOTS_ORDER12:
+            if not T and ((k == 4 and kn != ['nbkpts', 2]) or (k == 2 and kn[0] in ('placed', 'bkpt') or len(kn) > 2 and k == 2)):
+                continue            # quick: order 4 with one option; placed / explicit / bkspread with order 3 only
             for m in (0, 2, 10):
+                if not T and m == 0 and kn[0] != 'nbkpts':
+                    continue
                 t.append({'part': 'O12', 'k': k, 'knots': kn, 'maxiter': m, 'tier': tier})
     thr = [(5, 5), (3, 5), (3, 3)] if T else [(5, 5), (3, 5)]
     thr12 = thr[:2]
     for k in (2, 3, 4):
-        for kn in KNOTS12:
+        for kn in KNOTS12 + [['everyn', 3]]:
+            if kn[0] == 'everyn' and not T and k != 3:
+                continue
             if kn == ['nbkpts', 8] and k == 4:
                 continue            # 10 coefficients on 12 points: every rejection leaves an ill-posed refit
             for (up, lo) in thr12:
@@ -478,6 +495,7 @@ def tasks(tier):
                     t.append({'part': 'P', 'n': 12, 'xset': 'tie', 'k': k, 'knots': kn, 'upper': up, 'lower': lo, 'ivpat': (k + up) % 2, 'tier': tier})
             for m in (0, 2, 10):
                 t.append({'part': 'O12', 'xset': 'tie', 'k': k, 'knots': kn, 'maxiter': m, 'tier': tier})
+        t.append({'part': 'O12', 'xset': 'tie', 'k': k, 'knots': ['everyn', 3], 'maxiter': 10, 'tier': tier})
     # coverage hole: breakpoints dropped, refit on the surviving ones
     for k in (2, 3, 4):
         for kn in KNOTSGAP:
